@@ -361,7 +361,7 @@ def evaluate(units, jobs, meta, inputs_of, results, incidents, tier):
         gid, probed, ino, mode, sd = meta[jid]
         u = by_gid[gid]
         entry, kind, toks, basetoks, _ = inputs_of[u.gid][ino]
-        wit = {"grammar": u.text, "entry": entry, "tokens": toks[:80], "ntokens": len(toks), "source": inc["job"][5][:300], "modes": mode, "twin": twin_name(probed)}
+        wit = {"grammar": u.text, "entry": entry, "tokens": toks[:5000], "ntokens": len(toks), "source": inc["job"][5][:300], "modes": mode, "seed": sd, "twin": twin_name(probed)}
         if inc["kind"] == "died":
             V.v("C03", f"process-died:{grammar_shape(u)}:rc{inc['rc']}", f"arena process died (rc {inc['rc']}: stack overflow / abort / memory limit) while parsing", wit)
         else:
@@ -405,7 +405,7 @@ def evaluate_unit(u, base, inputs, res_by, by_gid, V, tier):
     feats = set(u.meta.get("features", []))
     for (probed, ino, mode, sd), rec in R.items():
         entry, kind, toks, basetoks, pairkey = inputs[ino]
-        wit = lambda extra=None: dict({"grammar": u.text, "entry": entry, "tokens": toks[:120], "ntokens": len(toks),
+        wit = lambda extra=None: dict({"grammar": u.text, "entry": entry, "tokens": toks[:5000], "ntokens": len(toks),
                                        "source": u.source_of(toks)[:400], "modes": mode, "seed": sd,
                                        "twin": twin_name(probed), "input_kind": kind}, **(extra or {}))
         key = f"{u.gid}|{ino}|{mode}{sd}"
@@ -554,7 +554,7 @@ def evaluate_unit(u, base, inputs, res_by, by_gid, V, tier):
                     want_span = list(base_spans[err_index]) if err_index < len(base_spans) else [total, total]
                     V.counts["C06"]["first_error_positions_compared"] += 1
                     if list(syn[0][:2]) != want_span:
-                        V.v("C06", f"first-error-position:{shape}", f"first syntax diagnostic at {syn[0][:2]}, first offending token is #{err_index} at {want_span}", wit({"diags": diags[:5]}))
+                        V.v("C06", f"first-error-position:{shape}", f"first syntax diagnostic at {syn[0][:2]}, first offending token is #{err_index} at {want_span}", wit({"diags": diags[:5], "want_span": want_span}))
         # ---------------- C16: trivia transparency ---------------------------------------------------
         if pairkey is not None and not big:
             # find the base job (same entry, trivia-free tokens)
